@@ -141,6 +141,12 @@ def run(ctx):
         form = rng.choice(["r", "c"])
         body = {"r": "r%s" % s_, "c": "c%s" % s_}[form]
         progs.append((head + body + " CH(16)n100,%1", int(want), s_))
+        if "^" in s_:
+            # a tied part may stand on a LATER line: line breaks, blank lines, indentation and // comment lines before its '^'
+            # continue the length (theorem C04_token_line_break); same tick count as on one line
+            k = rng.choice([i for i, c in enumerate(s_) if c == "^"])
+            gap = rng.choice(["\n", "\n\n", "\r\n\r\n", "\n// tie goes on\n", "\n  ", "\n\t\n ", "\n/* x */\n"])
+            progs.append((head + form + s_[:k] + gap + s_[k:] + " CH(16)n100,%1", int(want), s_[:k] + gap + s_[k:]))
     got = ctx.impl(["compile_ev\t%s" % vlib.enc_text(p[0]) for p in progs], stall=15)
     mod = ctx.model(["compile_core\t%s" % vlib.enc_text(p[0]) for p in progs])
     glex = ctx.impl(["compile_lex\t%s" % vlib.enc_text(p[0]) for p in progs], stall=15)
